@@ -277,7 +277,7 @@ func faultMatrix(meta *common.Meta, tier string, outDir string) int {
 		{name: "rules-list-partly-unmatched", cliArgs: []string{"-enable=ruleguard,captLocal", "-@ruleguard.rules=" + rules + ",/nonexistent-verif/r-*.go"}, anArgs: []string{"-enable=ruleguard,captLocal", "-disable=", "-@ruleguard.rules=" + rules + ",/nonexistent-verif/r-*.go"}, keywords: []string{"no file matching"}, parseOK: true, goOK: true, nonEmpty: true, ctorErr: true, loadOK: true},
 		{name: "rules-list-first-unmatched", cliArgs: []string{"-enable=ruleguard,captLocal", "-@ruleguard.rules=/nonexistent-verif/r-*.go," + rules}, anArgs: []string{"-enable=ruleguard,captLocal", "-disable=", "-@ruleguard.rules=/nonexistent-verif/r-*.go," + rules}, keywords: []string{"no file matching"}, parseOK: true, goOK: true, nonEmpty: true, ctorErr: true, loadOK: true},
 		{name: "rules-plain-path-missing", cliArgs: []string{"-enable=ruleguard,captLocal", "-@ruleguard.rules=" + rules + ",/nonexistent-verif/plain.go"}, anArgs: []string{"-enable=ruleguard,captLocal", "-disable=", "-@ruleguard.rules=" + rules + ",/nonexistent-verif/plain.go"}, keywords: []string{"no file matching"}, parseOK: true, goOK: true, nonEmpty: true, ctorErr: true, loadOK: true},
-		{name: "rules-malformed-pattern", cliArgs: []string{"-enable=ruleguard,captLocal", "-@ruleguard.rules=" + rules + ",/nonexistent-verif/[bad", "-@ruleguard.failOn=all"}, anArgs: []string{"-enable=ruleguard,captLocal", "-disable=", "-@ruleguard.rules=" + rules + ",/nonexistent-verif/[bad", "-@ruleguard.failOn=all"}, keywords: []string{"pattern"}, parseOK: true, goOK: true, nonEmpty: true, ctorErr: true, loadOK: true},
+		{name: "rules-malformed-pattern", cliArgs: []string{"-enable=ruleguard,captLocal", "-@ruleguard.rules=/nonexistent-verif/[bad," + rules}, anArgs: []string{"-enable=ruleguard,captLocal", "-disable=", "-@ruleguard.rules=/nonexistent-verif/[bad," + rules}, keywords: []string{"pattern"}, parseOK: true, goOK: true, nonEmpty: true, ctorErr: true, loadOK: true},
 		// numeric flags outside their domain (the pool size must be positive)
 		{name: "zero-concurrency", cliArgs: []string{"-enable=captLocal", "-concurrency=0"}, anArgs: nil, keywords: []string{"concurrency"}, parseOK: false, goOK: true, nonEmpty: true, loadOK: true, timeout: 25 * time.Second},
 		{name: "negative-concurrency", cliArgs: []string{"-enable=captLocal", "-concurrency=-1"}, anArgs: nil, keywords: []string{"concurrency"}, parseOK: false, goOK: true, nonEmpty: true, loadOK: true, timeout: 25 * time.Second},
